@@ -117,6 +117,8 @@ def run(f, fixture, rep, cfg, tier):
     if cfg != "no-default":
         rep.include("c10", f, fixture, cfg, tier, "R10", "mutators change the package only after their fallible steps", only_rules={"R2"}, floor=4)
     rep.include("c07", f, fixture, cfg, tier, "R10", "cpio header fields, name size and padding; codec table", only_rules={"R2", "R6"}, floor=5)
+    # the c_mode field is `u32::from(entry.mode)`: that conversion must reproduce the 16-bit mode word (C18.O2)
+    rep.include("c18", f, fixture, cfg, tier, "R10", "mode word conversions used for the archive header", only_rules={"O2"}, floor=5)
     # header names (DIRNAMES[DIRINDEXES[i]] + BASENAMES[i]) equal the archive names: rests on the builder's field -> tag table (C06.R2)
     rep.include("c06", f, fixture, cfg, tier, "R10", "file name columns of the header", only_rules={"R2"}, floor=50)
 
